@@ -477,6 +477,9 @@ package zygo
 //@ C01,C13 assert the-consumer-is-still-there @before call yield[*]: !stopped
 // (read "text") reads a complete text: it is terminated like a loaded text, so that its last
 // atom is delivered, and reading nothing gives the nil value, not a Go nil
+//@ func (*Parser).NewInput
+//@ requires s != nil
+//@ C13 ensures queued-behind-the-current-text: old(p.lexer.stream != nil && len(p.lexer.next) == 0) ==> (len(p.lexer.next) == 1 && p.lexer.stream == old(p.lexer.stream)) || (len(p.lexer.next) == 0 && p.lexer.stream == s)
 //@ func ReadFunction
 //@ C01,C13 assert text-is-terminated @before call ParsingIter[0]: len(env.parser.lexer.next) == 1 || (len(env.parser.lexer.next) == 0 && env.parser.lexer.stream != nil && terminated)
 //@ ghost terminated := false @entry
